@@ -243,4 +243,4 @@ impl fmt::Debug for Park {
 
 #[cfg(kani)]
 #[path = "/verif/harness/may/park.rs"]
-mod verif_kani;
+pub(crate) mod verif_kani;
